@@ -2,6 +2,7 @@ package main
 
 import (
 	"fmt"
+	"sort"
 	"strings"
 	"sync"
 
@@ -138,6 +139,38 @@ func checkC11(e *Env) {
 				}
 				emitGroup(gp)
 				emitGroup(gm)
+			}
+			// runs of the code points whose NFKD form is longest relative to their own length
+			type exp struct {
+				cp    rune
+				ratio int
+			}
+			var heavy []exp
+			for _, cp := range g.decomp {
+				if d, ok := g.u.Decomp(cp); ok {
+					heavy = append(heavy, exp{cp, len(d) * 16 / len(string(cp))})
+				}
+			}
+			sort.Slice(heavy, func(i, j int) bool {
+				if heavy[i].ratio != heavy[j].ratio {
+					return heavy[i].ratio > heavy[j].ratio
+				}
+				return heavy[i].cp < heavy[j].cp
+			})
+			for hi := 0; hi < 40 && hi < len(heavy); hi++ {
+				for _, n := range []int{1, 3, 6, 12, 25, 50, 100} {
+					if hi >= 8 && n != 25 && n != 100 {
+						continue
+					}
+					s := strings.Repeat(string(heavy[hi].cp), n)
+					nf, _ := py.Normalize("NFKD", []string{s})
+					gp := &c11group{lang: -1, kind: "expansion-run-passphrase", bm: "zoo zoo zoo zoo zoo zoo zoo zoo zoo zoo zoo wrong", bp: s}
+					gp.variants = append(gp.variants, c11variant{m: gp.bm, p: nf[0], form: "NFKD"})
+					emitGroup(gp)
+					gm := &c11group{lang: -1, kind: "expansion-run-mnemonic", bm: s, bp: "x"}
+					gm.variants = append(gm.variants, c11variant{m: nf[0], p: "x", form: "NFKD"})
+					emitGroup(gm)
+				}
 			}
 			// ASCII prefixes of every length before a character that NFKD changes
 			for k := 0; k <= 40; k++ {
